@@ -403,6 +403,21 @@ func checkNoCallsUnderWriteLock(r *Report, rule string, f *ssa.Function, filter 
 	n := 0
 	var bad []string
 	eachInstr(f, func(in ssa.Instruction) {
+		// an operation that can wait for another goroutine (channel send / receive, select without default): while it
+		// waits, the write lock is held
+		if park := parksOn(in); park != "" {
+			if _, isCall := in.(*ssa.Call); !isCall {
+				for k := range realLocks(lf.May[in]) {
+					if strings.HasSuffix(k, "/W") && filter(strings.TrimSuffix(k, "/W")) {
+						n++
+						bad = append(bad, park)
+						r.Bad(rule, fnName(f)+": "+park+" under "+k, in.Pos(), fnName(f),
+							"the function can wait for another goroutine ("+park+") while it holds the write lock "+k+": if nobody is there to take part, it never releases the lock and every reader (request) and every later writer blocks for good")
+					}
+				}
+				return
+			}
+		}
 		ci, ok := in.(*ssa.Call)
 		if !ok {
 			return
